@@ -14,6 +14,7 @@ ap.add_argument('--repo', default='/repo')
 ap.add_argument('-p', '--prop', default='')
 ap.add_argument('-k', default='')
 ap.add_argument('--tier', default='quick')
+ap.add_argument('--shard', default='', help='i/n: run only every n-th variant starting at i (parallel runs on separate worktrees)')
 a = ap.parse_args()
 here = os.path.dirname(os.path.abspath(__file__))
 variants = json.load(open(os.path.join(here, 'variants.json')))
@@ -25,6 +26,9 @@ ran = 0
 st = subprocess.run(['git', '-C', a.repo, 'status', '--porcelain'], capture_output=True, text=True).stdout.strip()
 if st:
     print('refusing to run: %s has uncommitted changes' % a.repo); sys.exit(2)
+if a.shard:
+    si, sn = map(int, a.shard.split('/'))
+    variants = [v for i, v in enumerate(variants) if i % sn == si]
 for v in variants:
     if a.prop and v['prop'] != a.prop: continue
     if a.k and a.k not in v['id']: continue
